@@ -3,6 +3,11 @@ import json, os
 R = {
  "C20-f": (6, False, "C20 T9-find-returns-root (find answers with root_index(a), or with an index for which parent[x] == x dominates the return)", "generic Partition: an element three or more links below its representative (class of >= 8 built by balanced merges), queried first"),
  "C19-f": (6, True, "", "undirected vertex cut called with source > sink numerically"),
+ "C07-f": (6, True, "", "non-negative base curvature, an orbit with r >= 3 raised from v = 1 to 2 while an orbit with r <= 2 stays at its minimum: 11 D-sets up to size 7"),
+ "C08-f": (6, True, "", "bad orbifolds (tear-drop / spindle): is_euclidean true although curvature is positive"),
+ "C13-f": (6, False, "C13 T3-propagate-single-cut extended: unlabelled occurrences are counted with multiplicity (a Vec grown per occurrence, not a map keyed by the edge)", "a relator walk that crosses one unlabelled edge several times: power relators (ab)^k at rows with torsion (S3 one-row table: generators span index 3)"),
+ "C14-f": (6, True, "reported by the proactive T7-euclid-contract (round 3): the rounded quotient does not fold to an integer step, fail closed", "diagonal entries that are coprime and do not divide each other where the rounded Euclid ends on -1 (2,3 / 2,5 / 4,9): <a,b | a^2, b^3> gives [1,6]"),
+ "C18-f": (6, False, "C18 T9-rhs-largest-norm (the right-hand side enters the bound with its largest column norm; ascending sort)", "right-hand sides with >= 2 columns of very different magnitude: solve returns wrong fractions"),
  "C10-f": (6, True, "", "a non-cyclically-reduced word u v u^-1 with |u| >= 2 rotated by an offset between 2 and len - 2"),
 }
 for sid, (rnd, first, strength, needs) in R.items():
